@@ -57,6 +57,12 @@ type Hub struct {
 
 	hasStarted bool
 
+	// SKIs for which the application needs to be notified about the pairing detail
+	pairingDetailUpdates       []string
+	pairingDetailUpdateRunning bool
+
+	muxPairingUpdate sync.Mutex
+
 	muxCon        sync.Mutex
 	muxConAttempt sync.Mutex
 	muxReg        sync.Mutex
